@@ -671,12 +671,13 @@ INVOKE_FAMILY = {"is_invocable": 1, "invoke_result": 1, "invocable": 1, "regular
 def std_unspecified(trait, ts):
     """(trait, types) combinations for which the standard leaves the answer open or libstdc++ 12 is known to deviate from
     it; a conforming etl could legitimately differ from the oracle there, so they are not generated (soundness first)"""
-    # GCC 12 accepts a prvalue of type `volatile void` / `const void` as an argument for an ellipsis parameter inside
-    # decltype (only plain `void` is diagnosed), so std::invoke_result<void(...), cv void> names a type although the
-    # call is ill-formed by [expr.call]; an etl that rejects it is right -> cv void ARGUMENTS are not generated
+    # GCC 12 accepts a prvalue of type (cv) void as an argument for an ellipsis parameter inside decltype, so
+    # std::is_invocable<void(...), void> is true and std::invoke_result<void(...), cv void> names a type although the call
+    # is ill-formed by [expr.call]; an etl that rejects it is right -> void ARGUMENTS (any cv) are not generated
+    # (plain void slipped through until a VERIF_SEED=12345 run drew is_invocable<void(...), void>: false alarm, corrected)
     if trait in INVOKE_FAMILY:
         for t in ts[INVOKE_FAMILY[trait]:]:
-            if t.cat == "void" and t.cv:
+            if t.cat == "void":
                 return True
     for t in ts:
         # LWG 2116: whether is_nothrow_constructible considers the destructor is unresolved; GCC 12's builtin answers
@@ -1180,6 +1181,8 @@ def resolve_name(name, part, lv, allt, names, seed):
                     for ts in split_args(args, names):
                         if any(t.inc for t in ts):
                             continue
+                        if (tr in NOTHROW_CTOR or tr in INVOKE_FAMILY) and std_unspecified(tr, ts):
+                            continue  # an old violation file may name a combination that has since been recognised as unspecified
                         tag = pair_tag(tr, ts)
                         return Ob(name, tag, pair_flags(ts), "c15::%s_%s<%s>()" % (kind, tr, ", ".join(A(t) for t in ts)), "binary")
         if part in ("c0", "c1") and trait in set(UNARY_CONCEPTS + BINARY_CONCEPTS + TERNARY_CONCEPTS):
